@@ -56,9 +56,10 @@ prop("C10", TV, "Lean 4 model (current + frozen pinned reader) + cross-release d
 prop("C11", TV, "Lean 4 model + differential correspondence (proof in progress)",
      "Every strict prefix and every header edit of written files: error kind of model vs crate; oracle: an accepted prefix answers like the full file.",
      "Model hand-written; tie is differential.", oracle=True)
-prop("C12", TV, "Lean 4 model + differential correspondence (proof in progress)",
-     "Corrupted cache buffers (field boundary values, swapped records, bit flips, LEB128/UTF-8 damage): every query of model vs crate, each under catch_unwind with overflow checks on.",
-     "Memory safety of watto's unsafe casts is not modelled.")
+prop("C12", "proof", "Lean 4 theorems for all buffers and queries (index/slice/overflow obligations, slice-of-buffer-or-query) + differential correspondence on corrupted buffers",
+     "The reader model is total on arbitrary byte buffers (termination = Lean accepting the definitions). Kernel-checked obligations, for every buffer and query: binary_search_by stays in range for any comparator; find_range's slices are in range and the result is a contiguous all-equal slice; class member / by-params slices are in range or none; LEB128 consumes <= 10 bytes and stays below 2^64; every decoded field is < 2^32 and every returned line < 2^64 (no arithmetic overflow); every string returned by class, method and frame queries is a contiguous slice of the buffer or of the query. The exact mirror of binary_search_by / LEB128 / align_to on unsorted and corrupt data is validated on every run against the crate (field boundary values, swapped records, bit flips, LEB128/UTF-8 damage, random tails), each query under catch_unwind with overflow checks on.",
+     "Memory safety of watto's unsafe pointer casts and Rust lifetimes is not modelled; 'slice of the buffer' is proved as list-infix in the model. Text-trace and signature queries return owned strings built from such pieces (excluded, as in the property).",
+     theorems=["PG.C12_bsearch_in_range", "PG.C12_bsLoop_lt", "PG.C12_search_in_range", "PG.C12_findRange_slice", "PG.C12_class_slices", "PG.C12_leb_bounded", "PG.C12_readString_slice", "PG.C12_strings_suffix", "PG.C12_fields_u32", "PG.C12_line_bounded", "PG.C12_class_slice", "PG.C12_method_slice", "PG.C12_frame_slices"])
 prop("C13", TV, "Lean 4 model + differential correspondence (proof in progress)",
      "Full pipeline on hostile mapping bytes and queries (numbers around 2^32 and 2^64, empty names, invalid UTF-8): no panic, no error, answers equal the model's.",
      "Model hand-written; tie is differential.")
@@ -66,9 +67,10 @@ prop("C14", "other", "Lean 4 model as the single reference value + repeated/thre
      "Every written cache equals the Lean model's bytes; writes are repeated in-process, from 8 threads and in >= 8 fresh processes (fresh hash seeds) and compared; length equals the length implied by the header.",
      "Partial by nature: schedules and hash seeds are runtime behaviour; the model supplies the unique reference value.", oracle=True,
      explanation="Determinism across processes/threads is runtime behaviour no Lean model exhibits; the check ties every written file to the single value computed by the Lean model and repeats writes across threads and >= 8 processes.")
-prop("C15", TV, "Lean 4 model + differential correspondence (proof in progress)",
-     "Position-based sink policies (refactor-robust): result and accepted bytes of model vs crate; oracle with call-indexed scripts (short/fail/interrupted at every call index, chunk sizes 1..16): success => canonical bytes, failure => prefix.",
-     "Model hand-written; tie is differential.", oracle=True)
+prop("C15", "proof", "Lean 4 theorems over all deterministic sinks (arbitrary state machines) + differential correspondence",
+     "Kernel-checked theorems for every sink (arbitrary state machine answering accept-k / interrupted / fail to each write call), every fuel and every record list: success => accepted bytes = canonical serialisation; always a prefix of it; a sink failure forces result = failed; any sink accepting >= 1 byte per call makes writing succeed. The write_all / chunk-sequence model is tied to the crate by position-based sink policies (outcome independent of how the writer chunks its calls) and by call-indexed scripts (short / fail / interrupted at every call index, chunk sizes 1..16) on the implementation.",
+     "The theorems are about the model's chunk sequence and write_all loop; that ProguardCache::write issues exactly write_all calls on those bytes is what the differential run checks (F6 was exactly a violation of that).",
+     theorems=["PG.C15_success", "PG.C15_prefix", "PG.C15_propagates", "PG.C15_logFail_same", "PG.C15_chunking", "PG.writeChunksTo_ok", "PG.writeChunksTo_prefix"], oracle=True)
 prop("C16", "proof", "Lean 4 theorems over the descriptor grammar (all descriptors, all lookup functions) + differential correspondence",
      "Kernel-checked theorems: every valid descriptor (AST over primitives, object names without ';' and ')', arrays of any depth, any number of parameters) deobfuscates to exactly the rendered Java types for every class-lookup function; strings without '(' / ')' / return type / with an unterminated object type give none; mapper and cache agree on every string. The model function is tied to both Rust copies by the differential run (generated, corrupted, bounded-exhaustive and arbitrary strings).",
      "Proof is about the Lean model of java.rs; the tie model<->code is differential. The code is lenient beyond the property (e.g. '(XI)V'); no theorem forbids that.",
